@@ -441,6 +441,13 @@ def check_tie(run, key, what, translate, gen_name, facts_name, n_theorems):
     ok = rc1 == 0 and rc2 == 0 and closed == n_theorems
     rec.update(translated=True, generated_lines=text.count("\n"), generated_definitions_compile=rc1 == 0, equivalence_theorems=n_theorems,
                equivalence_theorems_checked=closed if rc2 == 0 else 0, axioms="none" if ok else "n/a", wall_s=round(time.time() - t0, 1), **info)
+    if ok and getattr(run, "tier", "quick") == "thorough":
+        # independent re-check of the generated definitions + equivalence theorems (and everything they depend on) by coqchk
+        lib = "Gen." + facts_name[:-2]
+        rc3, out3 = sh(f"timeout 1500 coqchk -silent -o -R {COQ} Spox -R {sc} Gen {lib}", cwd=str(sc), timeout=1530)
+        rec["coqchk"] = {"rc": rc3, "library": lib, "tail": out3[-600:]}
+        if rc3 != 0:
+            run.fail("proof", key + "/coqchk", f"coqchk rejected the compiled equivalence theorems of {what}", out3[-1500:])
     if not ok:
         rec["coqc_output"] = (out1 + out2)[-1200:]
         run.fail("proof", key, f"the Gallina functions generated from the current source text of {what} are no longer proved equal to the model's "
